@@ -170,14 +170,19 @@ class Universe(object):
         i1 = wire.TxIn(t0.txid()[::-1], 0, wire.script_build([sig(10), pa]))
         i1b, a1b = ext_in(ek(1), 1, 1)
         t1 = add([(i1, 300000 + salt, self.addr[0]), (i1b, 70000, a1b)],
-                 [(250000, spk_a1, self.addr[1]), (110000 + salt, spk_a0, self.addr[0])], base_h + 10,
-                 locktime=base_h + 9 if salt % 2 else 0)
+                 [(250000, spk_a1, self.addr[1]), (110000 + salt, spk_a0, self.addr[0])],
+                 # in one of five universes tx1 is mined in the same block as tx0 (later in the block)
+                 base_h + (0 if salt % 5 == 3 else 10),
+                 locktime=(base_h - 1 if salt % 5 == 3 else base_h + 9) if salt % 2 else 0)
         # tx2: A1 (tx1:0) + external -> A0, foreign, foreign
         i2 = wire.TxIn(t1.txid()[::-1], 0, b'', 0xffffffff, [sig(20), pb])
         i2b, a2b = ext_in(ek(2), 2, 0)
         f2, f2b = foreign(fk(2), 2), foreign(fk(3), 3)
         t2 = add([(i2, 250000, self.addr[1]), (i2b, 40000 + salt, a2b)],
-                 [(150000, spk_a0, self.addr[0]), (100000, f2[0], f2[1]), (30000 + salt, f2b[0], f2b[1])], base_h + 20,
+                 [(150000, spk_a0, self.addr[0]), (100000, f2[0], f2[1]), (30000 + salt, f2b[0], f2b[1])],
+                 # in two of five universes tx1 and tx2 are mined in the SAME block (ordering inside a block matters
+                 # for after_txid queries answered from the cache)
+                 base_h + (10 if salt % 5 == 1 else 20),
                  version=1 if salt % 3 == 0 else 2)
         # tx3 (unconfirmed): A0 (tx2:0) -> A1
         i3 = wire.TxIn(t2.txid()[::-1], 0, wire.script_build([sig(30), pa]))
@@ -1487,6 +1492,8 @@ def cache_scenarios(ctx):
             first = q('gettransactions', addr=addr, after=-1, limit=limit)
             for follow in (dict(first), q('getutxos', addr=addr, after=-1, limit=20), q('getbalance', addrs=[addr]),
                            q('getbalance', addrs=[0, 1]), q('gettransactions', addr=addr, after=0, limit=20),
+                           q('gettransactions', addr=addr, after=1, limit=20),
+                           q('gettransactions', addr=addr, after=1, limit=1),
                            q('gettransaction', tx=1), q('isspent', tx=1, n=1)):
                 for outage in tf:
                     for dt in (0, 61):
